@@ -26,6 +26,12 @@ struct Plan {
     reader_buf: usize,
     reader_stall_every: usize,
     tamper: Tamper,
+    /// the writer is the noise responder (it is in transport mode as soon as it has written its handshake message)
+    writer_is_server: bool,
+    /// the writer starts writing the moment its own handshake returns, without waiting for the reader's handshake
+    eager: bool,
+    /// the reader lets other tasks run this many times before it starts its handshake (coalesces what the writer sent meanwhile)
+    reader_late: usize,
 }
 
 fn gen_script(rng: &mut StdRng) -> Script {
@@ -68,7 +74,36 @@ fn gen_plan(rng: &mut StdRng, small: bool) -> Plan {
             s.pending_permille = s.pending_permille.min(100);
         }
     }
-    Plan { writes, script_w, script_r, reader_buf: [1usize, 2, 16, 1000, 65519, 65520, 100_000][rng.gen_range(0..7)], reader_stall_every: [0usize, 0, 3, 10][rng.gen_range(0..4)], tamper: Tamper::None }
+    Plan { writes, script_w, script_r, reader_buf: [1usize, 2, 16, 1000, 65519, 65520, 100_000][rng.gen_range(0..7)], reader_stall_every: [0usize, 0, 3, 10][rng.gen_range(0..4)], tamper: Tamper::None,
+        writer_is_server: rng.gen_bool(0.5), eager: rng.gen_bool(0.5), reader_late: [0usize, 0, 1, 5, 50][rng.gen_range(0..5)] }
+}
+
+struct LateRead<T> {
+    inner: T,
+    skip: usize,
+}
+
+impl<T: tokio::io::AsyncRead + Unpin> tokio::io::AsyncRead for LateRead<T> {
+    fn poll_read(mut self: std::pin::Pin<&mut Self>, cx: &mut std::task::Context<'_>, buf: &mut tokio::io::ReadBuf<'_>) -> std::task::Poll<std::io::Result<()>> {
+        if self.skip > 0 {
+            self.skip -= 1;
+            cx.waker().wake_by_ref();
+            return std::task::Poll::Pending;
+        }
+        std::pin::Pin::new(&mut self.inner).poll_read(cx, buf)
+    }
+}
+
+impl<T: tokio::io::AsyncWrite + Unpin> tokio::io::AsyncWrite for LateRead<T> {
+    fn poll_write(mut self: std::pin::Pin<&mut Self>, cx: &mut std::task::Context<'_>, buf: &[u8]) -> std::task::Poll<std::io::Result<usize>> {
+        std::pin::Pin::new(&mut self.inner).poll_write(cx, buf)
+    }
+    fn poll_flush(mut self: std::pin::Pin<&mut Self>, cx: &mut std::task::Context<'_>) -> std::task::Poll<std::io::Result<()>> {
+        std::pin::Pin::new(&mut self.inner).poll_flush(cx)
+    }
+    fn poll_shutdown(mut self: std::pin::Pin<&mut Self>, cx: &mut std::task::Context<'_>) -> std::task::Poll<std::io::Result<()>> {
+        std::pin::Pin::new(&mut self.inner).poll_shutdown(cx)
+    }
 }
 
 struct Outcome {
@@ -92,12 +127,16 @@ fn execute(seed: u64, plan: &Plan) -> Outcome {
         let (hs_tx, hs_rx) = tokio::sync::oneshot::channel::<()>();
         let stats2 = stats.clone();
         let writer = async {
-            let mut s = match NoiseStream::client(&root, a).await {
+            let hs = if plan2.writer_is_server { NoiseStream::server(&root, a).await } else { NoiseStream::client(&root, a).await };
+            let mut s = match hs {
                 Ok(s) => s,
                 Err(e) => return format!("handshake: {e:?}"),
             };
-            // wait until the reader finished its handshake too, then arm the tamper stage
-            let _ = hs_rx.await;
+            // wait until the reader finished its handshake too (unless eager), then arm the tamper stage: the writer's
+            // handshake message has passed the stage completely by now, so frame numbering starts at its first data frame
+            if !plan2.eager {
+                let _ = hs_rx.await;
+            }
             stats2.arm_a2b(plan2.tamper.clone());
             let mut off = 0;
             for (n, flush) in &plan2.writes {
@@ -121,7 +160,11 @@ fn execute(seed: u64, plan: &Plan) -> Outcome {
         };
         let reader = async {
             let mut got = vec![];
-            let mut s = match NoiseStream::server(&root, b).await {
+            // the reader's transport answers its first `reader_late` read polls with Pending, so whatever the writer sent
+            // meanwhile (its handshake message and, if eager, the first data frames) is delivered coalesced
+            let b = LateRead { inner: b, skip: plan.reader_late };
+            let hs = if plan.writer_is_server { NoiseStream::client(&root, b).await } else { NoiseStream::server(&root, b).await };
+            let mut s = match hs {
                 Ok(s) => s,
                 Err(e) => return (got, format!("handshake: {e:?}")),
             };
@@ -226,6 +269,8 @@ pub fn run(args: &Args, rep: &mut Report) {
         }
         rep.distinct(vcommon::hash_of(&format!("{plan:?}")));
         if plan.script_w.capacity > 0 { rep.count("sessions_with_back_pressure"); }
+        if plan.writer_is_server { rep.count("sessions_written_by_the_responder"); }
+        if plan.writer_is_server && plan.eager && plan.reader_late > 0 { rep.count("sessions_responder_writes_before_the_initiator_finished_its_handshake"); }
         if plan.script_w.pending_permille > 0 || plan.script_r.pending_permille > 0 { rep.count("sessions_with_pending_injection"); }
         // (2) tamper enumeration on this session's data frames (handshake = first 1 frame in this direction)
         let Some(fr) = fr else { continue };
